@@ -182,7 +182,104 @@ func HarnessC20(k, bannedMask int) {
 	verifrt.Cover("end", true)
 }
 
+// verifTopologyMixed: replica sets with different numbers of replicas (0, 1, 2) and an unowned gap.
+func verifWorldMixed(o *core.Options, sopts ...Option) (*core.VerifWorld, *listenServer, []vSet) {
+	ls := NewListenServer(sopts...)
+	authCmd = ""
+	ls.OnBoot(core.Engine{})
+	w := core.VerifNewWorld(ls, o)
+	sets := []vSet{{0, 99, "A:1", nil}, {200, 8191, "B:1", []string{"B:2"}}, {8192, 16383, "C:1", []string{"C:2", "C:3"}}}
+	for _, s := range sets {
+		w.AddPool(s.master, false)
+		for _, sl := range s.slaves {
+			w.AddPool(sl, true)
+		}
+		w.SetSlots(s.lo, s.hi, s.master, s.slaves...)
+	}
+	return w, ls, sets
+}
+
+// HarnessC04Seq: n requests one after the other on one client connection, each a solver-chosen
+// command of a representative set (reads, a write, a scan, a script) with an arbitrary 2-byte key,
+// against replica sets that have 0, 1 and 2 replicas. Routing of EVERY request must obey the rule —
+// whatever was routed before it (state carried from one routing decision to the next is the target).
+func HarnessC04Seq(n, disable int) {
+	var sopts []Option
+	if disable == 1 {
+		sopts = append(sopts, WithDisableRedisSlave(true))
+	}
+	w, _, sets := verifWorldMixed(core.VerifDefaultOptions(), sopts...)
+	c := w.NewClient("10.0.0.1:5000")
+	names := []string{"get", "set", "hscan", "eval"}
+	seen := map[*core.VerifConn]int{}
+	for i := 0; i < n; i++ {
+		name := names[verifrt.Choice("cmd", len(names))]
+		// "{x}": the slot is the CRC of one arbitrary byte (all three replica sets and the gap are reachable)
+		key := []byte{'{', verifrt.Byte("key"), '}'}
+		var args [][]byte
+		switch name {
+		case "eval":
+			args = [][]byte{[]byte(name), []byte("s"), []byte("1"), key}
+		case "set", "hscan", "zrange":
+			args = [][]byte{[]byte(name), key, []byte("0")}
+			if name == "zrange" {
+				args = append(args, []byte("1"))
+			}
+		default:
+			args = [][]byte{[]byte(name), key}
+		}
+		req := core.VerifEncode(args...)
+		w.Feed(c, req)
+		w.RunTasks()
+		slot := core.VerifSpecSlotOf(key)
+		var owner *vSet
+		for k := range sets {
+			if slot >= sets[k].lo && slot <= sets[k].hi {
+				owner = &sets[k]
+			}
+		}
+		if owner == nil {
+			for _, s := range w.SortedServers() {
+				verifrt.Assert(len(w.Sent(s)) == seen[s], "unowned_slot_nothing_forwarded")
+			}
+			continue
+		}
+		// which backend connection received this request?
+		var target *core.VerifConn
+		for _, s := range w.SortedServers() {
+			got := w.Sent(s)
+			if len(got) > seen[s] {
+				verifrt.Assert(target == nil, "forwarded_to_exactly_one_connection")
+				target = s
+				tail := got[seen[s]:]
+				// a fresh replica connection starts with READONLY
+				ro := "*1\r\n$8\r\nREADONLY\r\n"
+				if seen[s] == 0 && s.Addr != owner.master && len(tail) >= len(ro) && string(tail[:len(ro)]) == ro {
+					tail = tail[len(ro):]
+				}
+				verifrt.Assert(verifBytesEq(tail, req), "request_bytes_unchanged")
+				seen[s] = len(got)
+			}
+		}
+		verifrt.Assert(target != nil, "request_forwarded")
+		isMaster := target.Addr == owner.master
+		isSlave := false
+		for _, sl := range owner.slaves {
+			if target.Addr == sl {
+				isSlave = true
+			}
+		}
+		verifrt.ObserveStr("target", target.Addr)
+		verifrt.Assert(isMaster || isSlave, "routed_to_the_replica_set_owning_the_slot")
+		if !verifReadOnly[name] || disable == 1 {
+			verifrt.Assert(isMaster, "writes_scans_scripts_go_to_the_master")
+		}
+	}
+	verifrt.Cover("end", true)
+}
+
 func init() {
+	verifrt.Register("HarnessC04Seq", func(p []int64) { HarnessC04Seq(int(p[0]), int(p[1])) })
 	verifrt.Register("HarnessC04", func(p []int64) { HarnessC04(int(p[0]), int(p[1]), int(p[2])) })
 	verifrt.Register("HarnessC20", func(p []int64) { HarnessC20(int(p[0]), int(p[1])) })
 }
